@@ -14,7 +14,7 @@ NAMES = ["chr1", "chr2", "chrX", "2", "HLA-DRB1.1", "chr 1", "chrUn_gl000220", "
          "scaffold_7-b", "1"]
 
 BT_FAMILIES = ["fixed_exact", "fixed_short", "fixed_onebin", "variable", "onebin_each", "mixed",
-               "trap"]
+               "multi_width", "trap"]
 
 
 # ---------------------------------------------------------------- bin tables
@@ -125,6 +125,13 @@ def gen_bt(rng, family=None, max_chroms=5, max_bins=30, widths=(1, 2, 3, 5, 10, 
                 edges = fixed_edges(nb * b, b)
             else:
                 edges = fixed_edges(int(rng.integers(1, nb * b + 1)), b)
+        elif family == "multi_width":
+            # every chromosome is uniform, but each at its OWN width (a valid variable-width table)
+            bw = int([2, 3, 5, 10, 7][(ci + int(b)) % 5]) * (ci + 1)
+            nb = max(nb, 2)
+            edges = fixed_edges(nb * bw - int(rng.integers(0, bw)), bw)
+            if len(edges) < 3:
+                edges = [0, bw, 2 * bw]
         elif family == "trap":
             # valid variable-width tables that look fixed if last bins are ignored:
             # (i) all bins but the last equal, last one LONGER; (ii) a ONE-BIN chromosome longer
@@ -157,6 +164,8 @@ def gen_bt(rng, family=None, max_chroms=5, max_bins=30, widths=(1, 2, 3, 5, 10, 
         else:
             raise ValueError(family)
         bt.append([name, [int(x) for x in edges]])
+    if family == "multi_width" and len(bt) == 1:
+        bt.append(["mwX", [0, 4, 8, 12, 13]] if bt[0][1][1] != 4 else ["mwX", [0, 6, 12, 15]])
     if family == "variable" and bt_fixed_width(bt) is not None:
         # make sure it is really variable: tweak so it cannot look fixed
         bt[0][1] = [0, 3, 4, 9]
@@ -298,4 +307,17 @@ def gen_coarse_trap_bt(rng, k):
             widths += comp(last_total, parts) if last_total > 1 or parts == 1 else [last_total]
         edges = [0] + np.cumsum(widths).tolist()
         bt.append([NAMES[ci], [int(x) for x in edges]])
+    return bt
+
+
+def gen_giant_bt(rng):
+    """Genome longer than 2**31 bp in total (every chromosome below 2**31, as int32 coordinates
+    require) with a handful of variable-width bins per chromosome."""
+    nch = int(rng.integers(2, 4))
+    bt = []
+    for ci in range(nch):
+        L = int(rng.integers(1_000_000_000, 2_000_000_000))
+        nb = int(rng.integers(2, 6))
+        cuts = sorted(set(int(x) for x in rng.integers(1, L, size=nb - 1)))
+        bt.append([NAMES[ci], [0] + cuts + [L]])
     return bt
